@@ -366,11 +366,36 @@ func monC08(c *drv.Ctx) {
 				continue
 			}
 			pr := ref.Parse(stream[pos:], it.t)
-			out, err := d.Next(thrift.TType(it.t))
 			if pr.TooDeep || pr.DontCare || pr.MaxNesting >= 64 {
 				cs.C.DontCare("shared-reader-boundary-zone")
 				return
 			}
+			if kind == 1 && r.Intn(3) == 0 {
+				// the stream codec's own skip on the same reader, judged by what it consumed
+				br := thrift.NewBufferReader(rd)
+				before := rd.ReadLen()
+				err := br.Skip(thrift.TType(it.t))
+				took := rd.ReadLen() - before
+				br.Recycle()
+				switch {
+				case pr.OK && err != nil:
+					cs.Fail("skip-rejected-wellformed", M{"skipper": "BufferReader.Skip sharing its reader"}, M{"item": k, "stream_offset": pos, "err": errString(err), "value_len": pr.N})
+					return
+				case pr.OK && took != pr.N:
+					cs.Fail("skip-wrong-extent", M{"skipper": "BufferReader.Skip sharing its reader"}, M{"item": k, "stream_offset": pos, "message": fmt.Sprintf("consumed %d bytes for a value of %d", took, pr.N)})
+					return
+				case !pr.OK && err == nil:
+					cs.Fail("skip-accepted-malformed", M{"skipper": "BufferReader.Skip sharing its reader", "causes": causeNames(pr.Causes)}, M{"item": k, "stream_offset": pos})
+					return
+				}
+				if !pr.OK {
+					break
+				}
+				pos += pr.N
+				cs.C.Obs("values skipped by the stream codec on a shared reader", 1)
+				continue
+			}
+			out, err := d.Next(thrift.TType(it.t))
 			switch {
 			case pr.OK && err != nil:
 				cs.Fail("skip-rejected-wellformed", M{"skipper": "SkipDecoder sharing its reader"}, M{"item": k, "stream_offset": pos, "err": errString(err), "value_hex": hexOf(it.enc)})
